@@ -93,7 +93,15 @@ pub struct SharedState {
     /// Shared lease state between Raft loop (writer) and EmbeddedClient (reader).
     /// Arc ensures the same allocation is shared across role transitions via clone().
     pub lease: Arc<ReadLease>,
+
+    /// Writes the hard state to stable storage. Installed by `Raft::new`; invoked whenever
+    /// `current_term` or `voted_for` changes, i.e. before any reply that depends on the
+    /// new value can leave the node (Raft: "updated on stable storage before responding").
+    hard_state_persister: Option<HardStatePersister>,
 }
+
+/// Callback that persists the hard state (see [`SharedState::set_hard_state_persister`]).
+pub type HardStatePersister = Arc<dyn Fn(&HardState) + Send + Sync>;
 
 impl Clone for SharedState {
     fn clone(&self) -> Self {
@@ -103,6 +111,7 @@ impl Clone for SharedState {
             commit_index: self.commit_index,
             current_leader_id: AtomicU32::new(self.current_leader_id.load(Ordering::Acquire)),
             lease: Arc::clone(&self.lease),
+            hard_state_persister: self.hard_state_persister.clone(),
         }
     }
 }
@@ -161,6 +170,21 @@ impl SharedState {
             commit_index: last_applied_index_option.unwrap_or(0),
             current_leader_id: AtomicU32::new(0),
             lease: Arc::new(ReadLease::new()),
+            hard_state_persister: None,
+        }
+    }
+
+    /// Install the callback that makes hard-state changes durable.
+    pub fn set_hard_state_persister(
+        &mut self,
+        persister: HardStatePersister,
+    ) {
+        self.hard_state_persister = Some(persister);
+    }
+
+    fn persist_hard_state(&self) {
+        if let Some(persist) = &self.hard_state_persister {
+            persist(&self.hard_state);
         }
     }
 
@@ -194,18 +218,25 @@ impl SharedState {
         &mut self,
         term: u64,
     ) {
-        self.hard_state.current_term = term;
+        if self.hard_state.current_term != term {
+            self.hard_state.current_term = term;
+            self.persist_hard_state();
+        }
     }
 
     fn increase_current_term(&mut self) {
         self.hard_state.current_term += 1;
+        self.persist_hard_state();
     }
 
     pub fn voted_for(&self) -> Result<Option<VotedFor>> {
         Ok(self.hard_state.voted_for)
     }
     pub fn reset_voted_for(&mut self) -> Result<()> {
-        self.hard_state.voted_for = None;
+        if self.hard_state.voted_for.is_some() {
+            self.hard_state.voted_for = None;
+            self.persist_hard_state();
+        }
         Ok(())
     }
     /// Update voted_for and return true if this represents a new leader commitment
@@ -239,7 +270,10 @@ impl SharedState {
             None => new_vote.committed,
         };
 
-        self.hard_state.voted_for = Some(new_vote);
+        if self.hard_state.voted_for != Some(new_vote) {
+            self.hard_state.voted_for = Some(new_vote);
+            self.persist_hard_state();
+        }
         Ok(is_new_commit)
     }
 }
